@@ -1,5 +1,6 @@
 import CogentModel.Model.PruneSites
 import CogentModel.Proofs.PruneSites
+import CogentModel.Proofs.PruneSitesLump
 import CogentModel.Props.C02
 /-! # C02, second part — what happens to the per-column likelihoods afterwards: several loci, and the
 hidden Markov chain over site classes (`sites_independent=False`)
@@ -142,6 +143,46 @@ example : siteHmm [(1/4 : Rat), 1/4, 1/2] (1/3) [[1, 1/2], [1/3, 1], [1/5, 1/7]]
     = bruteHmm 2 (patchProbs [(1/4 : Rat), 1/4, 1/2]) (switchMatrix (1/3) (patchProbs [(1/4 : Rat), 1/4, 1/2]))
         (siteEmissions [(1/4 : Rat), 1/4, 1/2] [[1, 1/2], [1/3, 1], [1/5, 1/7]] [0, 1, 1]) := by
   decide +kernel
+
+/-! ## bins → patches: the lumping of `PatchSiteDistribution` -/
+
+/-- **Lumping, in general.**  A hidden chain over `nb` bins in which the move `b → c` has probability
+`T[patch b, patch c] · cond[c]` (go to the patch of `c`, then draw `c` inside it) gives — for EVERY patch assignment `p`,
+matrix `T`, conditional weights `cond`, initial vector and per-bin likelihoods — the same forward value as the chain over the
+`k` patches with matrix `T`, the initial vector summed per patch and the patch emission `Σ_{c ∈ a} lh[c] · cond[c]`
+(`get_weighted_sum_lhs`). -/
+theorem patch_emission_lumping {R : Type} [CommSemiring R] (nb k : Nat) (p : Nat → Nat) (hp : ∀ b, b < nb → p b < k)
+    (T : Mat R) (cond ib : Nat → R) (es : List (Nat → R)) :
+    forward k T (lumpW nb p ib) (es.map fun lh a => ∑ b ∈ Finset.range nb, if p b = a then lh b * cond b else 0)
+      = forward nb (fun b c => T (p b) (p c) * cond c) ib es :=
+  forward_lump nb k p hp T cond ib es
+
+/-- **`SiteHmm.__call__` = the forward recursion over the BINS** with the bin-level matrix of the published definition
+(`binMatrix`: patch move × conditional bin probability) started from the bin probabilities — every list of bin probabilities
+(any number of bins), switch value, per-bin likelihood table and index; no hypothesis. -/
+theorem site_hmm_eq_bin_forward {R : Type} [Field R] (bprobs : List R) (switch : R) (lhs : List (List R)) (index : List Nat) :
+    siteHmm bprobs switch lhs index
+      = forward bprobs.length (binMatrix bprobs switch) (fun b => bprobs.getD b 0) (binEmissions lhs index) :=
+  PruneSites.site_hmm_eq_bin_forward bprobs switch lhs index
+
+/-- **The reported site-class HMM likelihood is the published definition at the level of the bins**: the sum over ALL
+`nb^n` assignments of a bin to every site of `bprobs[b₀] lh₀[b₀] Π_t binMatrix[b_{t-1}, b_t] lh_t[b_t]`, when the bin
+probabilities sum to one, both patches have non-zero probability and the alignment has at least one column. -/
+theorem site_hmm_eq_bin_definition {R : Type} [Field R] (bprobs : List R) (switch : R) (lhs : List (List R)) (u : Nat) (index : List Nat)
+    (h1 : (∑ b ∈ Finset.range bprobs.length, bprobs.getD b 0) = 1)
+    (hpos : ∀ a, a < npatch bprobs.length → patchProbs bprobs a ≠ 0) :
+    siteHmm bprobs switch lhs (u :: index)
+      = bruteHmm bprobs.length (fun b => bprobs.getD b 0) (binMatrix bprobs switch) (binEmissions lhs (u :: index)) := by
+  rw [site_hmm_eq_bin_forward]
+  simp only [binEmissions, List.map_cons]
+  exact hmm_transposed_forward_eq_definition _ _ _ (fun c _ => binMatrix_stationary bprobs switch h1 hpos c) _ _
+
+/-- three bins `(1/4, 1/4, 1/2)` → patches `(1/4, 3/4)`, switch `1/3`, three sites (two patterns): `27` bin paths -/
+example : siteHmm [(1/4 : Rat), 1/4, 1/2] (1/3) [[1, 1/2], [1/3, 1], [1/5, 1/7]] [0, 1, 1]
+    = bruteHmm 3 (fun b => [(1/4 : Rat), 1/4, 1/2].getD b 0) (binMatrix [(1/4 : Rat), 1/4, 1/2] (1/3))
+        (binEmissions [[1, 1/2], [1/3, 1], [1/5, 1/7]] [0, 1, 1]) := by
+  decide +kernel
+example : (paths 3 3).length = 27 := by decide
 
 /-! ### regression note: the orientation of the loop before fix 6668db777 -/
 
